@@ -198,32 +198,26 @@ fn serve(inner: Arc<Inner>, mut stream: TcpStream, conn: u64) {
 
         // ---- act
         let mut close = wants_close;
-        let outcome = match decision {
-            Decision::Ack => match respond(&mut stream, 200, close, json) {
-                Ok(()) => Outcome::Acked,
+        // The outcome is logged BEFORE the response bytes are written: the client may act on the
+        // response (complete a flush, send the next request) before this thread runs again, and a check
+        // that reads the log at that moment must already see the request as answered. A failed write
+        // downgrades the entry to Dropped afterwards.
+        let mut answer = |inner: &Inner, stream: &mut TcpStream, status: u16, close: bool| -> Outcome {
+            let planned = if (200..300).contains(&status) { Outcome::Acked } else { Outcome::Rejected };
+            inner.update(idx, |r| r.outcome = planned);
+            match respond(stream, status, close, json) {
+                Ok(()) => planned,
                 Err(_) => Outcome::Dropped,
-            },
+            }
+        };
+        let outcome = match decision {
+            Decision::Ack => answer(&inner, &mut stream, 200, close),
             Decision::AckThenClose => {
                 close = true;
-                match respond(&mut stream, 200, true, json) {
-                    Ok(()) => Outcome::Acked,
-                    Err(_) => Outcome::Dropped,
-                }
+                answer(&inner, &mut stream, 200, true)
             }
-            Decision::Status(s) => match respond(&mut stream, s, close, json) {
-                Ok(()) => {
-                    if (200..300).contains(&s) {
-                        Outcome::Acked
-                    } else {
-                        Outcome::Rejected
-                    }
-                }
-                Err(_) => Outcome::Dropped,
-            },
-            Decision::GrpcStatus(_) | Decision::GrpcStatusTrailersOnly(_) => match respond(&mut stream, 500, close, json) {
-                Ok(()) => Outcome::Rejected,
-                Err(_) => Outcome::Dropped,
-            },
+            Decision::Status(s) => answer(&inner, &mut stream, s, close),
+            Decision::GrpcStatus(_) | Decision::GrpcStatusTrailersOnly(_) => answer(&inner, &mut stream, 500, close),
             Decision::ReadThenClose => {
                 close = true;
                 Outcome::Dropped
@@ -237,10 +231,7 @@ fn serve(inner: Arc<Inner>, mut stream: TcpStream, conn: u64) {
             Decision::Hold(latch) => {
                 inner.update(idx, |r| r.phase = Phase::Held);
                 if wait_while(&inner, &mut stream, || !inner.latch_released(latch)) {
-                    match respond(&mut stream, 200, close, json) {
-                        Ok(()) => Outcome::Acked,
-                        Err(_) => Outcome::Dropped,
-                    }
+                    answer(&inner, &mut stream, 200, close)
                 } else {
                     close = true;
                     Outcome::Dropped
